@@ -147,8 +147,10 @@ def gen_case(rng, systems):
 
 
 def build(impl):
-    net = RDNetwork(species=[Species(**kw) for kw in impl["species"]], reactions=[], environments=impl["envs"],
+    made = [Species(**kw) for kw in impl["species"]]
+    net = RDNetwork(species=made, reactions=[], environments=impl["envs"],
                     units_system=UnitsSystem(*impl["net_sys"]))
+    build.last_species = made        # the objects the caller created (the network was built from them)
     sp = impl["space"]
     if sp[0] == "grid":
         space = RDGridSpace(w=sp[1][0], h=sp[1][1], d=sp[1][2], cell_vol=sp[2], cell_env=sp[3], units_system=UnitsSystem(*impl["space_sys"]))
@@ -373,7 +375,8 @@ def _case(rep, spec, impl, exp, tag):
         if not ok:
             return
         # regenerating the defaults after editing a species reflects the edit
-        s0 = system.network.species[0]
+        # (the species is edited through the object the caller created, or through the network's entry - one and the same species)
+        s0 = system.network.species[0] if (N + nS) % 2 else build.last_species[0]
         eff = (s0.units_system["space"], s0.units_system["time"], s0.units_system["quantity"])
         s0.density = 4.0
         system.set_default_state()
